@@ -76,8 +76,18 @@ def check(case):
         if not (np.isscalar(v) and v == 0) and not (isinstance(v, np.ndarray) and (v == 0).all()):
             raise Violation("null_not_zero", "functions.null(%d args) = %r" % (case["nargs"], v))
         return ["null"]
-    fac = must(lib(_factory, case), "noise.%s(%r)" % (case["factory"], case.get("args")))
     n = case["n"]
+    if case["factory"] != "zero":
+        # the user seeds numpy first and creates the distribution afterwards: creating it must not disturb the stream
+        outs = []
+        for _ in range(2):
+            np.random.seed(case["seed"])
+            f0 = must(lib(_factory, case), "noise.%s(%r)" % (case["factory"], case.get("args")))
+            outs.append(np.asarray(must(lib(f0, min(n, 50) or 3), "draw right after creation")).copy())
+        if not np.array_equal(outs[0], outs[1]):
+            raise Violation("not_reproducible", "np.random.seed(%d); f = noise.%s(%r); f(n) gives different draws the second time: creating "
+                            "the distribution disturbs numpy's global generator" % (case["seed"], case["factory"], case.get("args")))
+    fac = must(lib(_factory, case), "noise.%s(%r)" % (case["factory"], case.get("args")))
     k = case["factory"]
     pr = _params(case)
     ctx = "noise.%s(%r) n=%d seed=%d" % (k, case.get("args"), n, case["seed"])
@@ -168,6 +178,10 @@ def noise_case(draw):
     elif k == "uniform":
         lo = draw(_dy(-64, 64))
         w = draw(st.sampled_from([2.0 ** -20, 0.125, 0.5, 1, 1, 2, 3, 10, 100, 4096]))
+        if draw(st.integers(0, 5)) == 0:
+            lo, w = -w, w                      # upper bound exactly 0
+        elif draw(st.integers(0, 7)) == 0:
+            lo = 0                             # lower bound exactly 0
         if case["ptype"] in ("int8", "int16", "int32", "int64", "py_int"):
             # integer bounds whose difference does not fit the (small) integer type they are held in
             lo = draw(st.sampled_from([-100, -120, -30000, -64, 3]))
